@@ -70,11 +70,12 @@
 (* internal step is taken at once -- the behaviours the harness can force. *)
 (* TLC checks the invariants on ALL interleavings (no constraint).         *)
 (*                                                                         *)
-(* Switches (all FALSE = the code as it is)                                *)
+(* Switches (SignedWant = TRUE, the others FALSE = the code as it is)       *)
 (*   AtomicPeers   Peers() checks and parks in one step (no window for a   *)
 (*                 lost wake-up)                                           *)
-(*   SignedWant    discover() compares size >= limit instead of            *)
-(*                 `limit - size == 0` on unsigned integers                *)
+(*   SignedWant    discover() compares size >= limit (the code since       *)
+(*                 /repo f5c221a); FALSE = the tree before: `limit - size  *)
+(*                 == 0` on unsigned integers, a round above the limit     *)
 (*   Serialized    [re-check connectedness, Add, callback, Protect] of a   *)
 (*                 worker and the whole of Discard exclude each other      *)
 (*                 (variable mu)                                           *)
@@ -194,8 +195,8 @@ CReset(c) ==
 -----------------------------------------------------------------------------
 (* discoveryLoop / discover *)
 
-\* a tick: discover(). `want := limit - size` is computed on unsigned integers and compared with 0, so a set
-\* ABOVE its limit starts a round as well (SignedWant = the comparison size >= limit)
+\* a tick: discover(). Before /repo f5c221a (SignedWant = FALSE) `want := limit - size` was computed on unsigned
+\* integers and compared with 0, so a set ABOVE its limit started a round as well
 LoopDiscover ==
   /\ ~DirectAPI /\ loop = "idle" /\ (MaxRounds = 0 \/ bud.rounds < MaxRounds)
   /\ IF (IF SignedWant THEN Size >= Limit ELSE Size = Limit)
@@ -512,7 +513,7 @@ SizeBound == Size <= Limit - 1 + Cardinality(Workers)
 \* ... and what it does not (a witness is wanted, not an alarm)
 HardLimit == Size <= Limit
 
-\* A round is started only below the limit. FAILS as the code is (unsigned `want`) once the set is above it.
+\* A round is started only below the limit. Failed before /repo f5c221a (unsigned `want`) once the set was above it.
 RoundOnlyBelowLimit == [][(loop = "idle" /\ loop' = "open") => Size < Limit]_vars
 
 \* A member of the set is connected, unless its disconnect event is still on its way through disconnectsLoop.
